@@ -227,8 +227,8 @@ def gen_cases(rng, tier):
         per = [(b"f%d.fa" % j, render([(s + b"#1#" + nm, q) for nm, q in c], rng.choice(WIDTHS), rng.choice(EOLS)[1], rng.choice(MASKS))) for j, (s, c) in enumerate(ss)]
         cs.append("stream " + " ".join(ftok(n, t) for n, t in per))
         cs.append("stream " + ftok(b"all.fa", b"".join(t for _, t in per)))
-    sh = gen_shas(rng, 3 if quick else 40, 12 if quick else 30)
-    pv = gen_pairs(rng, 6 if quick else 120)
+    sh = gen_shas(rng, 6 if quick else 40, 13 if quick else 30)
+    pv = gen_pairs(rng, 8 if quick else 120)
     _EXTRA["cli_creates"] = sum((len(c.split()) - 3) // int(c.split()[2]) for c in sh) + 2 * len(pv)
     return cs + sh + pv
 
